@@ -12,7 +12,7 @@
    Two more protocols are transcribed here (they are not part of C01's Model.v):
    api.writeCutOutputWith (pkg/api/cut.go) and cli.streamInOutForOperation/finalize (pkg/cli/io.go). *)
 From stdpp Require Import gmap.
-From Coq Require Import NArith.
+From Coq Require Import NArith String.
 From PV Require Import C01.FS C01.Model.
 
 Definition crash_plan (k : nat) : plan := fun j => Nat.leb k j.
@@ -216,6 +216,21 @@ Definition site_shape_ok (s : site) : bool :=
   | DDir, [PLit a; PBase; PLit b] => bytes_eqb a [46%N] && is_prefix [46; 116; 109; 112; 45]%N b
   | _, _ => false
   end.
+
+(* how a publish site looks at and opens its output (instantiated by Generated.v from the Go sources):
+   every os.Stat (follows symlinks: the destination's mode and existence are those of the file the path
+   resolves to) / os.Lstat call, and the os.O_* flag set of every OpenFile call *)
+Inductive statk := SStat | SLstat.
+Record pubsite := PubSite { ps_stats : list statk; ps_opens : list (list string) }.
+Definition has_flag (f : string) (l : list string) : bool := existsb (String.eqb f) l.
+(* an open that can only CREATE a file that does not exist (O_CREATE|O_EXCL fails on any existing name, also
+   a symlink) and never truncates or appends *)
+Definition open_exclusive (l : list string) : bool :=
+  has_flag "O_CREATE" l && has_flag "O_EXCL" l &&
+  negb (has_flag "O_TRUNC" l) && negb (has_flag "O_APPEND" l) && negb (has_flag "OTHER" l).
+Definition pubsite_ok (s : pubsite) : bool :=
+  forallb (fun k => match k with SStat => true | SLstat => false end) (ps_stats s) &&
+  forallb open_exclusive (ps_opens s).
 
 (* ---------- entry points for the correspondence harness ---------- *)
 (* an arbitrary plan (the glue builds: one failing call, e.g. the CreateTemp call, combined with a cut) *)
